@@ -107,6 +107,7 @@ def _arg(rnd, u):
 
 class C17(Property):
     id = "C17"
+    anchors = ('finam.data.tools.units:compatible_units', 'finam.data.tools.units:equivalent_units', 'finam.data.tools.units:_cache_units', 'finam.data.tools.units:to_units', 'finam.data.tools.core:prepare')
     technique = "reference-model monitor: hand-written dimensional table vs finam unit helpers and real links, random query orders"
     rule = (
         "each case sweeps a random subset (quick) or all (thorough) ordered pairs of a %d-unit catalogue in a fresh "
